@@ -11,6 +11,9 @@ def sha(prefix):
     raise SystemExit("no commit with subject prefix: " + prefix)
 
 FIXED = [
+ ("KF-C18-1", "C18", "C18-payload_from_args-empty-string-or-raw", "fix: payload_from_args writes the length",
+  "utils::payload_from_args wrote no u16 length prefix for an empty string/raw argument, so the encoded payload did not decode to the same arguments (a single empty raw value: 4 bytes written, 0 arguments decoded)",
+  "replays/examples/C18-payload_from_args-empty-raw.json"),
  ("KF-C17-1", "C17", "C17-duplicate-non-last-package", "fix: file transfer plugin tolerates duplicates",
   "a duplicate of a data package other than the last one (adjacent or delayed) made the transfer end as 'Incomplete file transfer. Missed package n' although every package arrived in order (30-byte file in 3 packages of 10, package 1 duplicated): the duplicate was counted towards the 'all packages received' rule",
   "replays/examples/C17-duplicate-non-last-package.json"),
